@@ -69,8 +69,14 @@ CONSTANTS
                 \* "red" late redirection: packets arrive one by one, at most MaxCalls
                 \* read(n) calls, every stream is redirected at some idle point
                 \* (buffered chunks, paused or not, chunks / EOF / CLOSE parked in
-                \* the channel all arise), possibly twice
+                \* the channel all arise), possibly twice;
+                \* "two": two read streams on one session, packets of both interleaved one
+                \* by one; the streams in Readers are read with one kind of call repeated
+                \* until EOF, the others are left unread (and fill the buffer limit)
     PrintAt,    \* 0: never; else print the history when it has this length or is terminal
+    StreamSample, \* 0: every stream; else that many streams drawn at random (quick tables)
+    Readers,    \* policy "two": the streams the application reads (the others stay unread)
+    EscapeFix,  \* TRUE: readuntil returns a partial result while paused only if it is non-empty
     SearchBug,  \* sensitivity: separator searched only in the newest chunk
     CloseBug,   \* sensitivity: CLOSE tears the channel down while data is still held
     ResumeFix,  \* TRUE: readuntil resumes reading when it stops at a marker (repaired code)
@@ -276,7 +282,11 @@ Allowed(cl, r, sn) ==
            ELSE \* no separator in what has arrived: partial result only at
                 \* a marker, at EOF, or when the buffer limit is reached (the
                 \* designed escape from the flow-control deadlock)
-                (term \/ sn.full) /\ r = part
+                \* - with something to return: an empty result would read as EOF
+                (term \/ (sn.full /\ R # <<>>)) /\ r = part
+      [] cl.k = "next" ->
+           \* __anext__ on a stream that is at EOF: iteration stops
+           r.k = "stop" /\ sn.eof /\ B = <<>>
       [] cl.k = "collect" ->
            \* everything that has entered the streams and is unread
            r.v = sn.B /\ r.v2 = sn.B2
@@ -428,7 +438,7 @@ UntilLoop(cc, d) ==
                                         !.len = @ - m] IN
                    Finish(Resume(c1), d, Ret(SubSeq(nb, 1, m)), m, Snap(cc, d, FALSE))
               ELSE UntilLoop([cc EXCEPT !.call[d].cur = cur + 1], d)
-    ELSE IF cc.rp \/ cc.eof
+    ELSE IF (cc.rp /\ (~EscapeFix \/ b # <<>>)) \/ cc.eof
          THEN LET pre == Flat(b)
                   c1 == [cc EXCEPT !.buf[d] = <<>>, !.len = @ - Len(pre)] IN
               Finish(Resume(c1), d, wrap(pre), Len(pre), Snap(cc, d, ShouldPause(cc)))
@@ -480,6 +490,11 @@ RunOne(cc, d) ==
     ELSE LET c1 == [cc EXCEPT !.run = d]
              c2 == IF d = "w" THEN WaitStep(c1)
                    ELSE IF c1.call[d].k \in {"read", "exact"} THEN ReadLoop(c1, d)
+                   ELSE IF c1.call[d].k = "next"
+                        \* SSHReader.__anext__: at_eof() ? stop : readline()
+                        THEN IF c1.eof /\ c1.buf[d] = <<>>
+                             THEN Finish(c1, d, [k |-> "stop", v |-> <<>>], 0, Snap(c1, d, FALSE))
+                             ELSE UntilLoop([c1 EXCEPT !.call[d].k = "line"], d)
                    ELSE UntilLoop(c1, d) IN
          [c2 EXCEPT !.run = "-"]
 
@@ -514,22 +529,39 @@ Streams ==
     {s \in {[d \in DTs |-> IF d = Prim THEN p ELSE e] : p \in PrimStreams, e \in ErrStreams} :
         \A d \in DTs \ {Prim} : Len(s[Prim]) + Len(s[d]) <= MaxLen}
 
+SampledStreams == IF StreamSample = 0 \/ StreamSample >= Cardinality(Streams) THEN Streams
+                  ELSE RandomSubset(StreamSample, Streams)
+
 Init ==
-    /\ S \in Streams
+    /\ S \in SampledStreams
     /\ \E W \in Windows : c = InitC(W) /\ swin = W
     /\ sent = [d \in DTs |-> 0]
     /\ eofSent = FALSE /\ exitSent = FALSE /\ closeSent = FALSE
     /\ wire = <<>> /\ ok = TRUE /\ ncalls = 0 /\ hist = <<>>
 
 AllSent == \A d \in DTs : sent[d] = Len(S[d])
+\* what SSHReader.at_eof() answers for every stream after the step (the
+\* driver polls it after every step in every replay)
+AE(cc) == [i \in 1..Len(DTOrder) |-> cc.eof /\ cc.buf[DTOrder[i]] = <<>>]
 Hist(l) == IF PrintAt > 0 THEN Append(hist, l) ELSE hist
 Idle    == wire = <<>>
 NoActiveCall == \A d \in CallDom : c.call[d].k = "none"
+
+AtEOF(d) == c.eof /\ c.buf[d] = <<>>
+\* policy "two": the reader of d has seen the end (for __anext__: has stopped)
+Stopped(d) == \E i \in DOMAIN hist : /\ hist[i][1] = "call" /\ hist[i][2] = d
+                                     /\ hist[i][6] # <<>> /\ hist[i][6][1][2] = "stop"
+FirstCallKind == IF \E i \in DOMAIN hist : hist[i][1] = "call"
+                 THEN hist[SetMin({i \in DOMAIN hist : hist[i][1] = "call"})][3] ELSE "-"
+Done(d) == IF FirstCallKind = "next" THEN Stopped(d) ELSE AtEOF(d) /\ FirstCallKind # "-"
+ReadersBusy == \A d \in Readers : c.call[d].k # "none" \/ Done(d)
 
 EmitOK ==
     /\ ~closeSent /\ Len(wire) < MaxBatch
     /\ Policy = "rfl" => c.call[Prim].k # "none"
     /\ Policy = "dfl" => ncalls = 0
+    \* any prefix of the packets may arrive before the first call is made
+    /\ Policy = "two" => ncalls = 0 \/ ReadersBusy
     /\ \A i \in DOMAIN wire : wire[i].u # <<"!seof">>
 
 EmitData(d, k) ==
@@ -560,7 +592,7 @@ EmitEOF ==
 
 EmitExit(x) ==
     /\ Proc /\ EmitOK /\ ~exitSent
-    /\ Policy = "red" => x = "status" /\ AllSent
+    /\ Policy \in {"red", "two"} => x = "status" /\ AllSent
     /\ wire' = Append(wire, [t |-> "exit", dt |-> Prim, u |-> <<x>>])
     /\ exitSent' = TRUE
     /\ hist' = Hist(<<"emit", "exit", Prim, <<x>> >>)
@@ -568,7 +600,7 @@ EmitExit(x) ==
 
 EmitClose ==
     /\ Proc /\ EmitOK /\ AllSent
-    /\ Policy = "red" => exitSent
+    /\ Policy \in {"red", "two"} => exitSent
     /\ wire' = Append(wire, [t |-> "close", dt |-> Prim, u |-> <<>>])
     /\ closeSent' = TRUE
     /\ hist' = Hist(<<"emit", "close", Prim, <<>> >>)
@@ -580,10 +612,10 @@ Settle(c2) == /\ c' = [c2 EXCEPT !.adj = 0, !.fin = <<>>]
 
 Run ==
     /\ wire # <<>>
-    /\ Policy \in {"rfl", "dfl", "red"} => Len(wire) = 1
+    /\ Policy \in {"rfl", "dfl", "red", "two"} => Len(wire) = 1
     /\ LET c2 == RunReaders(ProcessAll(c, wire)) IN
          /\ Settle(c2)
-         /\ hist' = Hist(<<"run", c2.fin>>)
+         /\ hist' = Hist(<<"run", c2.fin, AE(c2)>>)
     /\ wire' = <<>>
     /\ UNCHANGED <<S, sent, eofSent, exitSent, closeSent, ncalls>>
 
@@ -592,13 +624,13 @@ CallKinds ==
       \cup {[NoCall EXCEPT !.k = "exact", !.n = n, !.n0 = n] : n \in Ns}
       \cup {[NoCall EXCEPT !.k = "until", !.sep = s] : s \in SepChoice}
       \cup {[NoCall EXCEPT !.k = "line", !.sep = NlSep]}
+      \cup {[NoCall EXCEPT !.k = "next", !.sep = NlSep]}
 
 CallOK ==
     /\ Idle
     /\ MaxCalls > 0 => ncalls < MaxCalls
     /\ Policy = "dfl" => eofSent
 
-AtEOF(d) == c.eof /\ c.buf[d] = <<>>
 FirstCall == hist[SetMin({i \in DOMAIN hist : hist[i][1] = "call"})]
 SameAsFirst(cl) == ncalls >= 1 => /\ cl.k = FirstCall[3] /\ cl.n0 = FirstCall[4] /\ cl.sep = FirstCall[5]
 
@@ -607,29 +639,31 @@ StartCall(d, cl) ==
     /\ Policy \in {"rfl", "dfl"} => /\ d = Prim /\ SameAsFirst(cl) /\ ~AtEOF(d)
                                    /\ (cl.k \in {"read", "exact"} => cl.n0 # 0)
     /\ Policy = "red" => cl.k = "read" /\ cl.n0 > 0
+    /\ Policy = "two" => /\ d \in Readers /\ SameAsFirst(cl) /\ ~Done(d)
+                         /\ (cl.k \in {"read", "exact"} => cl.n0 # 0)
     /\ c.call[d].k = "none" /\ ~c.tgt[d].on
     /\ Proc => c.call["w"].k = "none"
     /\ LET c2 == RunReaders([c EXCEPT !.call[d] = cl, !.wq = <<d>>]) IN
          /\ Settle(c2)
-         /\ hist' = Hist(<<"call", d, cl.k, cl.n, cl.sep, c2.fin>>)
+         /\ hist' = Hist(<<"call", d, cl.k, cl.n, cl.sep, c2.fin, AE(c2)>>)
     /\ ncalls' = IF MaxCalls > 0 THEN ncalls + 1 ELSE ncalls
     /\ UNCHANGED <<S, sent, eofSent, exitSent, closeSent, wire>>
 
 StartWait ==
-    /\ Proc /\ CallOK /\ NoActiveCall /\ Policy # "red"
+    /\ Proc /\ CallOK /\ NoActiveCall /\ Policy \notin {"red", "two"}
     /\ LET c2 == RunReaders([c EXCEPT !.call["w"] = [NoCall EXCEPT !.k = "wait"],
                                       !.wq = <<"w">>]) IN
          /\ Settle(c2)
-         /\ hist' = Hist(<<"call", "w", "wait", 0, "-", c2.fin>>)
+         /\ hist' = Hist(<<"call", "w", "wait", 0, "-", c2.fin, AE(c2)>>)
     /\ ncalls' = IF MaxCalls > 0 THEN ncalls + 1 ELSE ncalls
     /\ UNCHANGED <<S, sent, eofSent, exitSent, closeSent, wire>>
 
 StartCollect ==
-    /\ Proc /\ CallOK /\ NoActiveCall /\ Policy # "red"
+    /\ Proc /\ CallOK /\ NoActiveCall /\ Policy \notin {"red", "two"}
     /\ \A d \in DTs : ~c.tgt[d].on
     /\ LET c2 == RunReaders(DoCollect(c)) IN
          /\ Settle(c2)
-         /\ hist' = Hist(<<"call", "w", "collect", 0, "-", c2.fin>>)
+         /\ hist' = Hist(<<"call", "w", "collect", 0, "-", c2.fin, AE(c2)>>)
     /\ ncalls' = IF MaxCalls > 0 THEN ncalls + 1 ELSE ncalls
     /\ UNCHANGED <<S, sent, eofSent, exitSent, closeSent, wire>>
 
@@ -643,13 +677,23 @@ Redirect(d) ==
          \* target already installed
          /\ hist' = Hist(<<"redirect", d, c2.fin,
                            <<Len(c.buf[d]), c.rp, Len(c.cbuf), c.ceof = "pending",
-                             c.ccl = "pending", c.tgt[d].on>> >>)
+                             c.ccl = "pending", c.tgt[d].on>>, AE(c2)>>)
     /\ UNCHANGED <<S, sent, eofSent, exitSent, closeSent, wire, ncalls>>
 
+CanEmit ==
+    /\ ~closeSent
+    /\ \/ ~eofSent /\ swin >= 1 /\ ~AllSent
+       \/ AllSent /\ ~eofSent
+       \/ Proc /\ AllSent /\ ~exitSent
+       \/ Proc /\ exitSent
 Terminal ==
     CASE Policy \in {"rfl", "dfl"} -> eofSent /\ Idle /\ NoActiveCall /\ AtEOF(Prim) /\ ncalls >= 1
       [] Policy = "red" -> /\ eofSent /\ Idle /\ (Proc => closeSent)
                            /\ \E d \in DTs : c.tgt[d].on
+      [] Policy = "two" ->
+           /\ Idle /\ ReadersBusy /\ (ncalls >= 1 \/ Readers = {})
+           /\ \/ ~CanEmit     \* everything sent, or stuck behind the unread stream
+              \/ (eofSent \/ closeSent) /\ (Proc => closeSent) /\ \A d \in Readers : Done(d)
       [] OTHER -> FALSE
 Stop == PrintAt > 0 /\ (Terminal \/ Len(hist) >= PrintAt)
 
